@@ -132,7 +132,9 @@ def pieces_for(leaf):
         # walk pattern intervals until past the end
         s = pos
         guard = 0
-        while s < total and guard < 100000:
+        # (a dash that would begin exactly at - or, with drift, just before - the end of the subpath
+        # is a tie: the engine may emit a zero-length dash there, i.e. a cap-shaped dot)
+        while s < total + drift + 0.05 and guard < 100000:
             on = True
             for d in P["dashes"]:
                 if on:
